@@ -99,13 +99,27 @@ def operand_pairs(chk, fb, RID):
                 pnames["mode"] = ib0["locals"][i].get("name")
             if "PartialDerivative<" in ty:
                 pnames["table"] = ib0["locals"][i].get("name")
-        for bb_ in [ib0] + [fb.bodies[c] for c in fb.closures_of(ib0["path"])]:
+        # private parts the inner derivative was split into (inlined by PO): their aggregates and closures belong to it
+        NOT_PART = ("partial_deepex", "partial_derivative_inner", "partial_derivative_outer", "partial_derisval", "partial_deri_per_operand", "make_partial_derivative_ops")
+        parts_, todo_ = [], [ib0]
+        while todo_:
+            cur_ = todo_.pop()
+            for root_ in [cur_] + [fb.bodies[c] for c in fb.closures_of(cur_["path"])]:
+                for _, t_ in mir.calls(root_):
+                    cp_ = mir.callee_path(t_) or ""
+                    hb_ = fb.bodies.get(cp_)
+                    if hb_ is not None and hb_["kind"] == "Fn" and cp_.startswith("expression::partial::") and cp_ not in drivers and hb_.get("name") not in NOT_PART \
+                            and not hb_.get("public") and hb_ not in parts_ and hb_ is not ib0:
+                        parts_.append(hb_)
+                        todo_.append(hb_)
+        scope_ = tuple([ib0["path"]] + [h_["path"] for h_ in parts_])
+        for bb_ in [ib0] + [fb.bodies[c] for h_ in [ib0] + parts_ for c in fb.closures_of(h_["path"])]:
             args_ = [Sym("env")] + [Sym("node%d" % i) for i in range(1, bb_["arg_count"])] if bb_["kind"] == "Closure" else [Sym("p_%s" % (bb_["locals"][i].get("name") or i)) for i in range(1, bb_["arg_count"] + 1)]
             for p in Interp(fb, PO()).run(bb_, args_):
                 for e in p.events:
                     if e[0] != "aggregate" or not (isinstance(e[1], Variant) and e[1].adt.endswith("partial::ValueDerivative")):
                         continue
-                    if not e[3].startswith(ib0["path"]):
+                    if not e[3].startswith(scope_):
                         continue       # aggregates built inside rule functions are R05.2's business
                     v, d = e[1].fields.get("val"), e[1].fields.get("der")
                     from analysis import rel as _rel
